@@ -343,28 +343,32 @@ func TestCheck(t *testing.T) {
 	go func() { fixCh <- generateFixtures(filepath.Join(dir, "fixtures.json")) }()
 
 	// 1. TLC enumerates the shape space (written to shapes.ndjson) and checks the guard-table model against the monitor
-	mc := tlc.Run(tlc.Opts{Dir: "InputShapes", Module: "ShapesModel", Config: ev.Pick("MC_small.cfg", "MC_big.cfg"), Workers: 14,
-		Timeout: ev.Pick(6*time.Minute, 40*time.Minute), HeapMB: ev.Pick(6144, 12288), Args: []string{"-noGenerateSpecTE"}, Keep: []string{"shapes.ndjson"}})
-	fmt.Printf("MC ShapesModel: ok=%v generated=%d distinct=%d wall=%s %s\n", mc.OK, mc.Generated, mc.Distinct, mc.Wall.Round(time.Millisecond), mc.What)
-	if !mc.OK {
-		e.Inconclusive("model check / enumeration of ShapesModel did not pass: " + mc.What + "\n" + mc.Tail(2000))
-	}
-	e.Set("states", mc.Distinct)
-	e.Set("transitions", mc.Generated)
-	e.Set("checker_cmd", mc.Cmd)
-	data := mc.Kept["shapes.ndjson"]
-	if len(data) == 0 {
-		e.Inconclusive("TLC did not write shapes.ndjson\n" + mc.Tail(2000))
-		return
-	}
-	shapes, err := loadShapes(data)
-	if err != nil {
-		e.Inconclusive("cannot read the shapes TLC wrote: " + err.Error())
-		return
-	}
-	if m := regexp.MustCompile(`<<"SHAPES", (\d+)>>`).FindStringSubmatch(mc.Output); m == nil || m[1] != strconv.Itoa(len(shapes)) {
-		e.Inconclusive(fmt.Sprintf("shape count mismatch: TLC announced %v, file has %d", m, len(shapes)))
-		return
+	var shapes []*Shape
+	var data []byte
+	if os.Getenv("VERIF_REPLAY") == "" {
+		mc := tlc.Run(tlc.Opts{Dir: "InputShapes", Module: "ShapesModel", Config: ev.Pick("MC_small.cfg", "MC_big.cfg"), Workers: 14,
+			Timeout: ev.Pick(6*time.Minute, 40*time.Minute), HeapMB: ev.Pick(6144, 12288), Args: []string{"-noGenerateSpecTE"}, Keep: []string{"shapes.ndjson"}})
+		fmt.Printf("MC ShapesModel: ok=%v generated=%d distinct=%d wall=%s %s\n", mc.OK, mc.Generated, mc.Distinct, mc.Wall.Round(time.Millisecond), mc.What)
+		if !mc.OK {
+			e.Inconclusive("model check / enumeration of ShapesModel did not pass: " + mc.What + "\n" + mc.Tail(2000))
+		}
+		e.Set("states", mc.Distinct)
+		e.Set("transitions", mc.Generated)
+		e.Set("checker_cmd", mc.Cmd)
+		data = mc.Kept["shapes.ndjson"]
+		if len(data) == 0 {
+			e.Inconclusive("TLC did not write shapes.ndjson\n" + mc.Tail(2000))
+			return
+		}
+		shapes, err = loadShapes(data)
+		if err != nil {
+			e.Inconclusive("cannot read the shapes TLC wrote: " + err.Error())
+			return
+		}
+		if m := regexp.MustCompile(`<<"SHAPES", (\d+)>>`).FindStringSubmatch(mc.Output); m == nil || m[1] != strconv.Itoa(len(shapes)) {
+			e.Inconclusive(fmt.Sprintf("shape count mismatch: TLC announced %v, file has %d", m, len(shapes)))
+			return
+		}
 	}
 	if rp := os.Getenv("VERIF_REPLAY"); rp != "" {
 		shapes, err = replayShapes(rp)
